@@ -25,14 +25,22 @@ ASSUMPTIONS = [
     "stated tolerance: 1e-14 (linear; exact rational reference) or 1e-12 (log; float reference in np.log values) times "
     "(steepest slope * max|target_data| + max|data|), the forward error bound of slope*(x-x0)+y0 in floating point",
     "an empty set of target levels is combined with in-memory inputs only (dask cannot size a zero-length output dimension)",
+    "target_data is float64, int64 or (linear method only) float32 with values those types represent exactly; levels are float64",
 ]
 pos_vals = st.integers(1, 64).map(lambda k: k / 4.0)
 
 
 @st.composite
-def profile(draw, L, log, direction):
+def profile(draw, L, log, direction, dtype="float64"):
+    """strictly monotonic profile whose values the given dtype represents exactly"""
     base = st.integers(-40, 40).map(lambda k: k / 4.0) if not log else pos_vals
-    vals = sorted(draw(st.sets(st.one_of(base, base, st.floats(0.5 if log else -10.0, 10.0, allow_nan=False, width=64)), min_size=L, max_size=L)))
+    if dtype == "int64":
+        els = st.integers(1 if log else -40, 60).map(float)
+    elif dtype == "float32":
+        els = base
+    else:
+        els = st.one_of(base, base, st.floats(0.5 if log else -10.0, 10.0, allow_nan=False, width=64))
+    vals = sorted(draw(st.sets(els, min_size=L, max_size=L)))
     return vals if direction else vals[::-1]
 
 
@@ -46,7 +54,14 @@ def strategy_impl(draw, tier):
     bypass = draw(st.integers(0, 4)) == 0
     shared = draw(st.booleans()) if lead else False
     nprof = 1 if shared else ncol
-    thetas = [draw(profile(L, log, True if bypass else draw(st.booleans()))) for _ in range(nprof)]
+    # target_data is usually float64, but integer (pressure levels, indices) and float32 coordinates are just as legal; the
+    # target levels stay float64 (fractional levels between integer knots included)
+    theta_dtype = draw(st.sampled_from(["float64", "float64", "float64", "float32", "int64"]))
+    if log and theta_dtype == "float32":
+        # np.log of a float32 array is a float32 logarithm: a level equal to an end value then compares unequal to the
+        # (float64) logarithm of itself.  That is the precision of the data type, not something the property addresses.
+        theta_dtype = "float64"
+    thetas = [draw(profile(L, log, True if bypass else draw(st.booleans()), theta_dtype)) for _ in range(nprof)]
     allv = sorted({x for t in thetas for x in t})
     lo, hi = allv[0], allv[-1]
     span = hi - lo
@@ -63,7 +78,7 @@ def strategy_impl(draw, tier):
     phi = draw(gen.data_values(lead + [L]))
     level = draw(st.sampled_from(["kernel", "api", "api"]))
     case = {"L": L, "lead": lead, "method": method, "bypass": bypass, "shared": shared, "thetas": thetas, "levels": levels,
-            "per_column_levels": per_column_levels, "phi": phi, "mask_edges": draw(st.booleans()), "level": level}
+            "per_column_levels": per_column_levels, "phi": phi, "mask_edges": draw(st.booleans()), "level": level, "theta_dtype": theta_dtype}
     if level == "api":
         case["api"] = {
             "pos": draw(st.sampled_from(["center", "center", "left", "outer"])),
@@ -148,7 +163,8 @@ def check(case, ctx):
     ncol = len(thetas)
     tol = error_bound(case, thetas, 1e-14 if case["method"] == "linear" else 1e-12)
     phi = np.asarray(case["phi"], dtype=np.float64).reshape(tuple(lead) + (L,))
-    theta_full = np.array(thetas, dtype=np.float64).reshape(tuple(lead) + (L,))
+    tdt = case.get("theta_dtype", "float64")
+    theta_full = np.array(thetas, dtype=np.float64).reshape(tuple(lead) + (L,)).astype(tdt)
     log = case["method"] == "log"
 
     if case["level"] == "kernel":
@@ -159,14 +175,14 @@ def check(case, ctx):
                                              np.array(levels[c], dtype=np.float64), case["mask_edges"], case["bypass"], log))
                 compare(got, exp.reshape(ncol, -1)[c], "kernel (single column)", tol)
         else:
-            th_arg = np.array(thetas[0]) if (case["shared"] and lead) else theta_full
+            th_arg = np.array(thetas[0]).astype(tdt) if (case["shared"] and lead) else theta_full
             got = np.asarray(must_return("interp_1d_linear", interp_1d_linear, phi, th_arg, np.array(levels[0], dtype=np.float64),
                                          case["mask_edges"], case["bypass"], log))
             compare(got, exp, "kernel (all columns)", tol)
             # column independence: one column at a time gives the same rows
             flat = got.reshape(ncol, -1)
             for c in range(min(ncol, 3)):
-                one = np.asarray(interp_1d_linear(phi.reshape(ncol, L)[c], np.array(thetas[c]), np.array(levels[0], dtype=np.float64),
+                one = np.asarray(interp_1d_linear(phi.reshape(ncol, L)[c], np.array(thetas[c]).astype(tdt), np.array(levels[0], dtype=np.float64),
                                                   case["mask_edges"], case["bypass"], log))
                 if not np.array_equal(one, flat[c], equal_nan=True):
                     raise Violation("a column computed alone differs from the same column computed with others", column=c)
@@ -177,7 +193,7 @@ def check(case, ctx):
     unsorted_lv = any(list(lv) != sorted(lv) for lv in levels)
     lo_hi = [(min(t), max(t)) for t in thetas]
     edge = any(lv <= lo or lv >= hi for (lo, hi), lvs in zip(lo_hi, levels) for lv in lvs)
-    classes = [f"level:{case['level']}", f"method:{case['method']}", f"mask:{case['mask_edges']}", f"bypass:{case['bypass']}",
+    classes = [f"level:{case['level']}", f"theta:{case.get('theta_dtype', 'float64')}", f"method:{case['method']}", f"mask:{case['mask_edges']}", f"bypass:{case['bypass']}",
                f"nlev:{len(levels[0])}", f"ncol:{min(ncol, 4)}"]
     if dec:
         classes.append("decreasing")
@@ -214,7 +230,7 @@ def run_api(case, phi, thetas, levels, exp, tol):
         Lp = gen.pos_len(n, p)
         vals = np.arange(Lp) * 1.0
         if d == zdim and a["td"] == "omitted":
-            vals = np.array(thetas[0], dtype=np.float64)
+            vals = np.array(thetas[0], dtype=np.float64).astype(case.get("theta_dtype", "float64"))
         coords[d] = (d, vals)
         gc["Z"][p] = d
     for name, size in zip(enames, lead):
@@ -227,9 +243,10 @@ def run_api(case, phi, thetas, levels, exp, tol):
     if a["td"] != "omitted":
         nm = a["td_name"] if a["td"] == "named" else None
         if case["shared"] or not lead:
-            td = xr.DataArray(np.array(thetas[0], dtype=np.float64), dims=[zdim], name=nm)
+            td = xr.DataArray(np.array(thetas[0], dtype=np.float64).astype(case.get("theta_dtype", "float64")), dims=[zdim], name=nm)
         else:
-            td = xr.DataArray(np.array(thetas, dtype=np.float64).reshape(tuple(lead) + (L,)), dims=enames + [zdim], name=nm).transpose(*order)
+            td = xr.DataArray(np.array(thetas, dtype=np.float64).reshape(tuple(lead) + (L,)).astype(case.get("theta_dtype", "float64")),
+                              dims=enames + [zdim], name=nm).transpose(*order)
     if a["chunk"] and lead:
         da = da.chunk({enames[0]: 1})
         if td is not None and enames[0] in td.dims:
@@ -256,6 +273,10 @@ def run_api(case, phi, thetas, levels, exp, tol):
             newdim = "TRANSFORMED_DIMENSION"
         else:
             newdim = zdim
+    if td is not None and case["method"] == "linear":
+        # a call with other target_data of the same name first: nothing of it may survive on the Grid
+        kw0 = dict(kw, target_data=(td * 2.0 + 1.5).rename(td.name))
+        must_return("Grid.transform with other target_data", grid.transform, da, "Z", target, **kw0)
     got = must_return(f"Grid.transform(method={case['method']!r})", grid.transform, da, "Z", target, **kw)
     if a["chunk"] and lead:
         import dask
